@@ -272,8 +272,10 @@ class ProblemKind(up.AnyBaseClass, metaclass=ProblemKindMeta):
             self._features, oth._features, self.version, oth.version
         )
         valid_version_features = get_valid_features(version)
-        self_feat.intersection_update(valid_version_features)
-        oth_feat.intersection_update(valid_version_features)
+        # equalize_versions hands back the very sets of the operands when no upgrade is needed:
+        # build new sets instead of updating them in place
+        self_feat = self_feat.intersection(valid_version_features)
+        oth_feat = oth_feat.intersection(valid_version_features)
         return self_feat.issubset(oth_feat)
 
     def clone(self) -> "ProblemKind":
